@@ -10,15 +10,18 @@ import RtoscModel.Match.Path
 namespace Rtosc.Match
 open Rtosc
 
-/-- `while(*pattern && *pattern != ':') arg_match &= (*pattern++==*arg_str++);`
+/-- `while(*pattern && *pattern != ':') { arg_match = arg_match && (*pattern==*arg_str++); ++pattern; }`
+    (the loop as repaired by fixes/C05-args-overread.patch, which changes all three copies alike)
     returns (pattern, arg_str, arg_match) after the loop -/
 def argWhile : Bytes → Bytes → Bool → Option (Bytes × Bytes × Bool)
   | [], _, _ => none
   | c :: r, a, am =>
     if c ≠ 0 ∧ c ≠ 58 then
-      match a with
-      | [] => none
-      | x :: ar => argWhile r ar (am && c == x)
+      if am then
+        match a with
+        | [] => none
+        | x :: ar => argWhile r ar (c == x)
+      else argWhile r a false
     else some (c :: r, a, am)
 
 /-- `arg_matcher(pattern, args)`; one unit of fuel per (recursive) call -/
